@@ -530,6 +530,17 @@ func vC01RunCase(c vC01Case) (res vC01Result) {
 			res.stats["final_sync_timeout"]++
 		}
 	}
+	cmdsT, evsT, ok := vC01Finalize(rig, subs, c.N, &res)
+	if !ok {
+		return
+	}
+	res.term = fmt.Sprintf("(%d, %s,\n   %s)", c.N, cmdsT, evsT)
+	return
+}
+
+// vC01Finalize observes every node once more, collects the tracker calls and turns the trace into Coq terms
+// (the command table and the event list).
+func vC01Finalize(rig *vC01Rig, subs []vC01Submitted, nNodes int, res *vC01Result) (string, string, bool) {
 	rig.observeAll()
 	rig.mu.Lock()
 	trace0 := append([]vC01Ev{}, rig.trace...)
@@ -539,7 +550,7 @@ func vC01RunCase(c vC01Case) (res vC01Result) {
 	}
 	rig.mu.Unlock()
 	// tracker calls: wait for as many as pin/unpin entries were applied (a waiting aid, not a verdict)
-	want := make([]int, c.N)
+	want := make([]int, nNodes)
 	for _, e := range trace0 {
 		if e.Kind == "apply" {
 			g := vC01Generic(logData0[e.Idx])
@@ -553,9 +564,7 @@ func vC01RunCase(c vC01Case) (res vC01Result) {
 			}
 		}
 	}
-	for _, n := range rig.nodes {
-		rig.recordCalls(n, want[n.idx])
-	}
+	rig.recordCalls(want)
 	rig.mu.Lock()
 	trace := append([]vC01Ev{}, rig.trace...)
 	logData := map[uint64][]byte{}
@@ -569,7 +578,7 @@ func vC01RunCase(c vC01Case) (res vC01Result) {
 	rig.mu.Unlock()
 	if overflow {
 		res.skipped = "raft-install-loop"
-		return
+		return "", "", false
 	}
 	if diverged != "" {
 		res.direct = append(res.direct, "log-diverged: "+diverged)
@@ -699,6 +708,20 @@ func vC01RunCase(c vC01Case) (res vC01Result) {
 				}
 				evs = append(evs, fmt.Sprintf("OObs %d (Some %s)", e.Node, cqList(ps)))
 			}
+		case "ready":
+			ps := make([]string, len(e.Pins))
+			for i, p := range e.Pins {
+				ps[i] = p.coq()
+			}
+			o := "None"
+			if e.Ok {
+				o = fmt.Sprintf("(Some %s)", cqList(ps))
+			}
+			m0 := label(e.Idx)
+			if m0 > 0 {
+				commitUpTo(m0 - 1)
+			}
+			evs = append(evs, fmt.Sprintf("OReady %d %d %s", e.Node, m0, o))
 		case "trk":
 			cs := make([]string, len(e.Calls))
 			for i, cl := range e.Calls {
@@ -711,7 +734,6 @@ func vC01RunCase(c vC01Case) (res vC01Result) {
 			evs = append(evs, fmt.Sprintf("OTrk %d %s", e.Node, cqList(cs)))
 		}
 	}
-	res.term = fmt.Sprintf("(%d, %s,\n   %s)", c.N, cqList(cmds), "["+strings.Join(evs, ";\n    ")+"]")
 	// non-trivial: two ops on one cid reached the log and some replica restored a snapshot or restarted
 	perCid := map[int]int{}
 	two := false
@@ -729,7 +751,7 @@ func vC01RunCase(c vC01Case) (res vC01Result) {
 	res.stats["restarts"] = restarts
 	res.stats["log_len"] = len(idxs)
 	res.obs = map[string]interface{}{"trace": trace, "log": logCmd, "stats": res.stats}
-	return
+	return cqList(cmds), "[" + strings.Join(evs, ";\n    ") + "]", true
 }
 
 func vC01Quiet() {
